@@ -279,27 +279,28 @@ class ModelTrainer:
                     "symmetries": symm,
                 }
 
-            # if edges and part names aren't set in config, get it from `sio.Labels` object.
-            head_config = self.config.model_config.head_configs[self.model_type]
-            for key in head_config:
-                if "part_names" in head_config[key].keys():
-                    if head_config[key]["part_names"] is None:
-                        part_names = [x.name for x in self.skeletons[0].nodes]
-                        self.config.model_config.head_configs[self.model_type][key][
-                            "part_names"
-                        ] = part_names
-
-                if "edges" in head_config[key].keys():
-                    if head_config[key]["edges"] is None:
-                        edges = [
-                            (x.source.name, x.destination.name)
-                            for x in self.skeletons[0].edges
-                        ]
-                        self.config.model_config.head_configs[self.model_type][key][
-                            "edges"
-                        ] = edges
-
             self.edge_inds = train_labels.skeletons[0].edge_inds
+
+        # if edges and part names aren't set in config, get it from the skeleton (of the
+        # `sio.Labels` object, or - when existing chunks are re-used - of the chunks' config).
+        head_config = self.config.model_config.head_configs[self.model_type]
+        for key in head_config:
+            if "part_names" in head_config[key].keys():
+                if head_config[key]["part_names"] is None:
+                    part_names = [x.name for x in self.skeletons[0].nodes]
+                    self.config.model_config.head_configs[self.model_type][key][
+                        "part_names"
+                    ] = part_names
+
+            if "edges" in head_config[key].keys():
+                if head_config[key]["edges"] is None:
+                    edges = [
+                        (x.source.name, x.destination.name)
+                        for x in self.skeletons[0].edges
+                    ]
+                    self.config.model_config.head_configs[self.model_type][key][
+                        "edges"
+                    ] = edges
 
         if (
             rank is None or rank == 0
